@@ -97,4 +97,15 @@ pub mod verif_hooks {
         }
         s
     }
+
+    /// Shaper chosen by a plan, and the script found per table (GSUB, GPOS).
+    pub fn plan_scripts(plan: &hb_ot_shape_plan_t) -> (&'static str, [Option<u32>; 2], [bool; 2]) {
+        use crate::hb::ot_layout::TableIndex;
+        let c = |t| plan.ot_map.chosen_script(t).map(|x| x.as_u32());
+        (
+            crate::hb::ot_shaper::verif_hooks::shaper_name(plan.shaper),
+            [c(TableIndex::GSUB), c(TableIndex::GPOS)],
+            [plan.ot_map.found_script(TableIndex::GSUB), plan.ot_map.found_script(TableIndex::GPOS)],
+        )
+    }
 }
